@@ -797,4 +797,10 @@ def r7_20(ctx):
     ctx.floor(n, 2, "sites that append a Column to Table.columns")
 
 
-RULES = [r7_1, r7_2, r7_3, r7_4, r7_5, r7_6, r7_7, r7_8, r7_9, r7_10, r7_11, r7_12, r7_13, r7_14, r7_15, r7_16, r7_17, r7_18, r7_19, r7_20]
+def r7_21(ctx):
+    from .c02 import r2_2
+    from .common import borrow
+    borrow(ctx, r2_2, "R2.2", "R7.21", " [every character of a folded cell stays in its column: the cell text is wrapped by Text.wrap, which must expand tabs BEFORE the break offsets are measured - expanded afterwards, a wrapped line grows past the column and the final truncate drops its last characters]")
+
+
+RULES = [r7_1, r7_2, r7_3, r7_4, r7_5, r7_6, r7_7, r7_8, r7_9, r7_10, r7_11, r7_12, r7_13, r7_14, r7_15, r7_16, r7_17, r7_18, r7_19, r7_20, r7_21]
